@@ -561,9 +561,9 @@ func C09() kit.Engine {
 			Rule: "one run = one drawn history on a filter handle (filter shape, op mix and length drawn per run; Unload / Reload(fresh) / Reload(earlier object) / restart-from-wire injected at drawn points), compared step by step with an independent BIP37 model; non-trivial = at least one insertion, then at least one fault operation, then at least one membership query; distinct = distinct FNV-64 signature of the executed op list",
 			RealVsStub: map[string]string{
 				"bloom.Filter, bloom.MurmurHash3, bloom.NewFilter/LoadFilter": "real (from /repo working tree)",
-				"wire.MsgFilterLoad encode/decode (restart)":                 "real dependency (bchd/wire)",
-				"BIP37 bit model + MurmurHash3":                              "reference model (verif/sim/model), self-tested on published vectors",
-				"network / disk / clock":                                     "none exist in this code path",
+				"wire.MsgFilterLoad encode/decode (restart)":                  "real dependency (bchd/wire)",
+				"BIP37 bit model + MurmurHash3":                               "reference model (verif/sim/model), self-tested on published vectors",
+				"network / disk / clock":                                      "none exist in this code path",
 			},
 			Assumptions: []string{"bchd/wire serialises filterload messages faithfully", "empty (0-byte) filters are outside the statement's 1..36000-byte domain and receive no insert/match operations"},
 		},
